@@ -20,6 +20,7 @@ def jobs(tier):
         add('to_cp_n%d' % n, 'h_to_cp', ['C02', 'C01'], n + 3, dict(N=n), 600, 'to_codepoint == RFC 3629 decoding (strict and lenient)', 'all byte strings of length %d' % n)
     for n in [1, 2, 3, 4]:
         add('is_legal_n%d' % n, 'h_is_legal', ['C02'], 6, dict(N=n), 300, 'is_legal_utf8 == RFC 3629 table', 'all %d-byte sequences of class length %d' % (n, n))
+    add('sur_class', 'h_sur_class', ['C02', 'C01'], 3, dict(N=1), 300, 'is_high_surrogate/is_low_surrogate/is_surrogate == UTF-16 surrogate ranges (used by the parser for \\u escapes and by the encoders)', 'all 2^32 code point values')
     add('cp_to_utf8', 'h_cp_to_utf8', ['C02'], 6, dict(N=1), 300, 'convert(utf32->utf8): shortest-form encoding of every scalar, surrogates and > U+10FFFF rejected', 'all 2^32 code point values')
     for n in ([1, 2, 3, 4, 5] if t else [1, 2, 3, 4]):
         add('escape_n%d' % n, 'h_escape', ['C01', 'C08'], n + 2, dict(N=n), 900, 'escape_string: unescape(escape(s))==s, legal escapes only, ASCII-only under escape_all_non_ascii, ill-formed -> ser_error', 'all byte strings of length %d x both flags' % n)
